@@ -102,7 +102,7 @@ def run_group(gname, s, tier="quick", seed=0, canary=False):
                         prove_pairs(res, "%s::%s/unit%d/p%d" % (tag, name, u, k), [("n2", n2, ONE)], hyp, samp, pv,
                                     (xt, p + "_" + name, fbufs), seed=seed)
                     elif pv.cls == "taylor":
-                        unit_series(res, "%s::%s/unit%d/p%d" % (tag, name, u, k), n2, G)
+                        unit_series(res, "%s::%s/unit%d/p%d" % (tag, name, u, k), n2, G, pv)
                     else:
                         res.unverified.append("%s::%s: measure-zero path with |a_rot|^2 == eps2 exactly (unit clause)" % (ct, name))
             for k, pv in enumerate(fviews):
@@ -116,7 +116,7 @@ def run_group(gname, s, tier="quick", seed=0, canary=False):
                         sign_clause(res, "%s::mul/canary-sign-of-qx" % tag, fviews[0], fviews[0].out(outbuf)[grp[0]], wvars, expect_fail=True)
         guarded(res, "%s::%s" % (tag, name), go)
 
-    def unit_series(res_, oid, n2, G_unused):
+    def unit_series(res_, oid, n2, G_unused, pv=None):
         # tangent input 't' scaled, group input 'a' symbolic unit
         t0 = 0
         try:
@@ -125,7 +125,11 @@ def run_group(gname, s, tier="quick", seed=0, canary=False):
             j = jet.to_jet(ctx, n2)
             d = jet.jadd(ctx, j, jet.jneg(ctx, jet.jconst(ctx, 1)))
             from .lie import _order_bound
-            bnd = _order_bound(ctx, d.lp.reduce(full=True), TMAX)
+            from .lie import tmax_of
+            tm = tmax_of(pv, G, "t", False)
+            if tm is None:
+                raise engine.Infra("cannot derive the range of the small-angle branch")
+            bnd = _order_bound(ctx, d.lp.reduce(full=True), tm)
             if d.prec < 6:
                 raise engine.Infra("precision")
             if bnd <= NTOL:
